@@ -89,9 +89,38 @@ class Model:
 
         for m in self.prog.modules.values():
             body = m.tree.body
-            if any(isinstance(st, ast.For) and any(isinstance(c, ast.Call) and dotted(c.func) == "register_element_cls" for c in ast.walk(st))
-                   for st in body):
+            # module-level helpers that register (`def register_element_classes(cls, tags): for t in tags: register_element_cls(t, cls)`)
+            helpers = {st.name: st for st in body if isinstance(st, ast.FunctionDef) and st.name != "register_element_cls" and any(
+                isinstance(c, ast.Call) and dotted(c.func) == "register_element_cls" for c in ast.walk(st))}
+
+            def registers(node):
+                return any(isinstance(c, ast.Call) and dotted(c.func) in (("register_element_cls",) + tuple(helpers)) for c in ast.walk(node))
+
+            if any(isinstance(st, ast.For) and registers(st) for st in body) or any(
+                    isinstance(st, ast.Expr) and isinstance(st.value, ast.Call) and dotted(st.value.func) in helpers for st in body):
+                import copy
+
+                from .inline import _Subst
+
                 body = unroll_block(body, m.tree)  # data-driven registration: `for tag, cls in (...): register_element_cls(tag, cls)`
+                out = []
+                for st in body:
+                    if isinstance(st, ast.Expr) and isinstance(st.value, ast.Call) and dotted(st.value.func) in helpers:
+                        fd = helpers[dotted(st.value.func)]
+                        params = [a.arg for a in fd.args.args]
+                        mapping = dict(zip(params, st.value.args))
+                        mapping.update({k.arg: k.value for k in st.value.keywords if k.arg})
+                        hb = [x for x in fd.body if not (isinstance(x, ast.Expr) and isinstance(x.value, ast.Constant))]
+                        new = [_Subst(mapping, {}).visit(copy.deepcopy(x)) for x in hb]
+                        for x in new:
+                            ast.copy_location(x, st)
+                            for y in ast.walk(x):
+                                if not hasattr(y, "lineno") or True:
+                                    y.lineno = st.lineno
+                        out.extend(unroll_block(new, ast.Module(body=new, type_ignores=[])))
+                    else:
+                        out.append(st)
+                body = out
             for st in body:
                 if isinstance(st, ast.For) and any(isinstance(c, ast.Call) and dotted(c.func) == "register_element_cls" for c in ast.walk(st)):
                     raise AnalysisError("%s:%d registration loop over something that is not a literal" % (m.relpath, st.lineno))
@@ -551,6 +580,12 @@ class Model:
                 from .inline import expand, with_self_class
 
                 sx = expand(prog, with_self_class(s, c))  # helper / hook methods of the descriptor inlined into the closure
+                # `return self._write_value`: the setter *is* that method (a bound method handed out as the callable)
+                rets_ = [n.value for n in ast.walk(sx) if isinstance(n, ast.Return) and n.value is not None]
+                if len(rets_) == 1 and isinstance(rets_[0], ast.Attribute) and dotted(rets_[0].value) == "self":
+                    bm = prog.lookup(c, rets_[0].attr)
+                    if bm is not None and bm.kind == "method":
+                        sx = expand(prog, with_self_class(bm, c))
                 order_ = []
                 for n in ast.walk(sx):
                     if isinstance(n, ast.Call) and isinstance(n.func, ast.Attribute) and n.func.attr in ("to_xml", "set"):
